@@ -89,6 +89,8 @@ def execOne (lim : Option Nat) (line : Bytes) : Except (Nat Ã— Bytes Ã— Bytes Ã—
     else if name == str "echo" then .ok (str "line: " ++ arg 0 ++ [LF])
     else if name == str "x" then .ok (str "line: " ++ line ++ [LF])
     else if name == str "fail" then .error (50, str "fail", str "failed " ++ arg 0, [])
+    -- a server (or proxy) that does not track the position inside a list: its ACK always says `@0`
+    else if name == str "failz" then .error (50, str "failz", str "failed " ++ arg 0, [])
     else if name == str "pfail" then
       .error (50, str "pfail", str "failed late " ++ arg 0, str "line: partial " ++ arg 0 ++ [LF] ++ str "more: output\n")
     else if name == str "binarylimit" then .ok []
@@ -161,7 +163,7 @@ def replyBlockL (lim : Option Nat) (cmds : List Bytes) (isList : Bool) : Bytes Ã
         | .ok b =>
           let (rest, lim') := go (i + 1) (newLimit lim c) cs
           (b ++ str "list_OK\n" ++ rest, lim')
-        | .error (code, cmd, msg, pre) => (pre ++ ack code i cmd msg, lim)
+        | .error (code, cmd, msg, pre) => (pre ++ ack code (if cmd == str "failz" then 0 else i) cmd msg, lim)
     go 0 lim cmds
   else
     match cmds with
